@@ -8,6 +8,9 @@ The theorems here are about the specification side: what a receiver is owed for 
 -/
 import Astits.Spec.Mux
 import Astits.Props.C02
+import Astits.Props.C12
+import Astits.Proofs.MuxDemux
+import Astits.Proofs.MuxDemuxNext
 namespace Astits.C01
 open Spec
 
@@ -64,5 +67,386 @@ theorem chunk184_sizes (fuel : Nat) (bs : Bytes) : ∀ c ∈ chunk184 fuel bs, c
       · exact ih _ c hc
 
 example : (chunk184 3 (List.replicate 200 7)).map List.length = [184, 16] := by decide +kernel
+
+/-! ## C01 on the MODEL: mux → demux end to end, one elementary PID (proofs: `Astits/Proofs/MuxDemux.lean`)
+
+Composition of C05 (continuity counters of `writeDataLoop`), C11 (`parsePacket ∘ writePacket = normalise`), C02/C07
+(the pool hands over exactly the units of a PID, whatever is interleaved) and C12 (`parsePESData` of a written PES
+packet).  Vocabulary (namespace `Astits.MuxDemux`):
+
+* `loopPkts pid hdr fuel data ps waf af cc` — the packets `writeDataLoop` builds (same recursion);
+  `Written pks cs` — `cs` are the `writePacket _ 188` images of `pks`, one each, in order;
+  `payloadOnly` — the payload-carrying ones; `Chain ps v pks` — first packet has PUSI = `ps`, counters are the
+  successors of `v`, no other packet has PUSI, none announces a discontinuity;
+* `CallerAF a` — the caller's adaptation field: not the one-byte form, `AFWF`, `stuffingLength = 0`,
+  `discontinuityIndicator = false`; `GoodData m d` — `PESHeaderOk` effective header, `CallerAF`, non-empty payload;
+* `ParsesTo cs s` — `s` is the demuxer's packet sequence for the chunks `cs` (`parsePacket none` of each);
+* `ESPid pid pm` — `pid ≠ 1` and not a PSI PID (`isPSIPayload pid pm = false`);
+* `groupsOn pm pid s` / `deliveredOn pm pid s` — the groups of `pid` the pool flushes while `s` is read plus the one
+  the end-of-stream drain hands over, and `parseData` of each;
+* `MuxCounters.run m ops` — a history of API calls (`Op`), `HistOK pid` — every call admissible, every `WriteData`
+  succeeded (no error, no panic), those on `pid` with `GoodData`; `writesOn pid m ops` — the PES written on `pid`. -/
+
+open Astits.MuxDemux Astits.MuxCounters Astits.PacketRT Astits.PESRT
+
+/-- **M1a — what one successful run of the packetisation loop writes.**  The chunks appended are the `writePacket`
+images of `loopPkts`, one each and in order; the payloads of the payload-carrying packets, concatenated, are the PES
+header followed by *all* the data (every byte once, in order); the returned counter is that of the last
+payload-carrying packet. -/
+theorem loop_written (pid : Nat) (hdr : PESHeader) (fuel : Nat) (data : Bytes) (ps waf : Bool)
+    (af : Option PacketAdaptationField) (cc : WrappingCounter) (acc l : List Bytes) (cc' : WrappingCounter)
+    (af' : Option PacketAdaptationField) (acc' : List Bytes)
+    (h : writeDataLoop pid hdr fuel data ps waf af cc acc = (.ok l, cc', af', acc')) :
+    ∃ cs, l = acc ++ cs ∧ acc' = acc ++ cs ∧ Written (loopPkts pid hdr fuel data ps waf af cc) cs ∧
+      ((ps = true → data ≠ []) →
+        concatPayload (payloadOnly (loopPkts pid hdr fuel data ps waf af cc))
+          = (if ps then pesHeaderBytes hdr data.length else []) ++ data) ∧
+      cc'.value = (lastCC (payloadOnly (loopPkts pid hdr fuel data ps waf af cc))).getD cc.value :=
+  MuxDemux.loop_written pid hdr fuel data ps waf af cc acc l cc' af' acc' h
+
+/-- **M1b — shape.**  The payload-carrying packets are p₀ … pₖ with PUSI on p₀ only (when the PES header is still to
+be written), counters consecutive from the successor of `cc`, no announced discontinuity (`Chain`). -/
+theorem loop_chain (pid : Nat) (hdr : PESHeader) (fuel : Nat) (data : Bytes) (ps waf : Bool)
+    (af : Option PacketAdaptationField) (cc : WrappingCounter) (hcc : CCInv cc) (haf : AFHyp waf af) :
+    Chain ps cc.value (payloadOnly (loopPkts pid hdr fuel data ps waf af cc)) :=
+  MuxDemux.loop_chain pid hdr fuel data ps waf af cc hcc haf
+
+/-- **M1c — every packet is well-formed (`PacketWF`), fills its 188 bytes exactly (`PacketFull`: no 0xff padding
+enters the payload) and is on `pid`.** -/
+theorem loop_good (pid : Nat) (hdr : PESHeader) (hpid : pid < 8192) (fuel : Nat) (data : Bytes) (ps waf : Bool)
+    (af : Option PacketAdaptationField) (cc : WrappingCounter) (hcc : CCInv cc) (haf : AFHyp waf af) :
+    ∀ p ∈ loopPkts pid hdr fuel data ps waf af cc, PacketWF p ∧ C11.PacketFull p ∧ p.header.pid = pid :=
+  MuxDemux.loop_good pid hdr hpid fuel data ps waf af cc hcc haf
+
+/-- **M1d — the adaptation field.**  When the PES header fits behind it (or there is none), the first packet carries
+PUSI, the PES header, the first payload bytes and the caller's adaptation field — as is when the payload fills the
+packet, with `stuffingLength := left` when `left` bytes are spare (`stuffPair_some`); without a caller's adaptation
+field the packet has none, or the stuffing-only `newStuffingAF left` (`stuffPair_none`). -/
+theorem first_packet_fits (pid : Nat) (hdr : PESHeader) (fuel : Nat) (data : Bytes) (waf : Bool)
+    (af : Option PacketAdaptationField) (cc : WrappingCounter) (payload : Bytes) (ntot np : Nat) (hd : data ≠ [])
+    (hfit : ¬ bytesAvail waf af < 6 + (calcPESOptionalHeaderLength hdr.optionalHeader : Int))
+    (hw : writePESData hdr data true (bytesAvail waf af) = .ok (payload, ntot, np)) :
+    loopPkts pid hdr (fuel + 1) data true waf af cc =
+      payloadPkt pid true cc.inc.get payload (stuffPair (bytesAvail waf af - ntot) (if waf then af else none) af).1 ::
+        loopPkts pid hdr fuel (data.drop np) false false
+          (stuffPair (bytesAvail waf af - ntot) (if waf then af else none) af).2 cc.inc :=
+  loopPkts_fits pid hdr fuel data waf af cc payload ntot np hd hfit hw
+
+/-- **M1e — the adaptation field when the PES header does not fit behind it**: it travels alone in a payload-less
+packet carrying the *current* counter value, stuffed to 188 bytes; the loop goes on without it, so the first
+payload-carrying packet has no adaptation field of the caller's.  The demuxer's pool ignores payload-less packets:
+in this case the caller's adaptation field does **not** reach `DemuxerData.FirstPacket`. -/
+theorem first_packet_nofit (pid : Nat) (hdr : PESHeader) (fuel : Nat) (data : Bytes) (a : PacketAdaptationField)
+    (cc : WrappingCounter) (hd : data ≠ [])
+    (hnofit : bytesAvail true (some a) < 6 + (calcPESOptionalHeaderLength hdr.optionalHeader : Int)) :
+    loopPkts pid hdr (fuel + 1) data true true (some a) cc =
+      afOnlyPkt pid (cc.get % 16) { a with stuffingLength := 183 - afSize a } ::
+        loopPkts pid hdr fuel data true false (some { a with stuffingLength := 0 }) cc :=
+  loopPkts_nofit pid hdr fuel data a cc hd hnofit
+
+/-- **M2 — parse back.**  The chunks written for well-formed packets that fill their 188 bytes parse, one by one, to
+the normalised packets: the demuxer's packet sequence is exactly the muxer's. -/
+theorem written_parses {pks : List Packet} {cs : List Bytes} (hw : Written pks cs)
+    (hg : ∀ p ∈ pks, PacketWF p ∧ C11.PacketFull p) : ParsesTo cs (pks.map normalise) :=
+  MuxDemux.written_parses hw hg
+
+/-- **M3 — one unit through `parseData`.** -/
+theorem parseData_pes_unit (pm : ProgramMap) (first : Packet) (rest : List Packet) (hdr : PESHeader) (data : Bytes)
+    (hpid : ESPid first.header.pid pm) (hok : PESHeaderOk hdr)
+    (hc : concatPayload (first :: rest) = pesHeaderBytes hdr data.length ++ data) :
+    parseData (first :: rest) .none pm =
+      .ok [{ firstPacket := some { first with payload := [] },
+             pes := some { data := data, header := { hdr with packetLength := pesPacketLengthFor hdr data.length } },
+             pid := first.header.pid }] :=
+  MuxDemux.parseData_pes_unit pm first rest hdr data hpid hok hc
+
+/-- **M4 (pool + `parseData` level, any multiplexer).**  If the payload-carrying packets of `pid` are, in stream order,
+the packets of units `ws` (`ChainOK`: PUSI on each first packet only, counters running on within and across units, no
+announced discontinuity) each carrying a written PES packet, then — whatever is interleaved on other PIDs, wherever
+payload-less packets of `pid` stand — the demuxer delivers for `pid` exactly one PES per unit, in order: the first
+units when the next unit starts, the last at the end-of-stream drain. -/
+theorem units_delivered (pm : ProgramMap) (pid : Nat) (hes : ESPid pid pm) (s : List Packet) (ws : List PESUnit)
+    (hf : (s.filter fun p => p.header.pid == pid && p.header.hasPayload) = ws.flatMap (·.unit.packets))
+    (hon : ∀ w ∈ ws, C02.unitOnPID pid w.unit) (hc : ChainOK [] (ws.map (·.unit)))
+    (hw : ∀ w ∈ ws, PESHeaderOk w.hdr ∧
+      concatPayload w.unit.packets = pesHeaderBytes w.hdr w.data.length ++ w.data) :
+    deliveredOn pm pid s = ws.map fun w => .ok [pesDelivered pid w.hdr w.data w.unit.first] :=
+  MuxDemux.units_delivered pm pid hes s ws hf hon hc hw
+
+/-- **C01 (model; pool + `parseData` level).**  Take a muxer state satisfying the invariant (e.g. a new muxer) and any
+history of calls — `AddElementaryStream` (explicit PIDs), `RemoveElementaryStream`, `SetPCRPID`, `WriteTables`,
+`WriteData` on any PID — in which every `WriteData` succeeded and those on `pid` had `GoodData` input.  Let `s` be
+the packets the demuxer parses from the emitted chunks.  Then, for an elementary-stream PID `pid` (not 0x1000), what
+the demuxer delivers for `pid` is exactly one PES per `WriteData` call on `pid`, in call order, each `.ok` with
+* `data` = the payload written,
+* `header` = the header written (stream id defaulted from the stream type, `PacketLength` as computed by the writer),
+* `firstPacket` = the first payload-carrying packet as parsed back (header with PUSI and the call's first counter,
+  adaptation field as described by M1d/M1e, payload removed),
+* `pid`.
+Nothing is lost, duplicated, reordered or reported as an error. -/
+theorem mux_demux_pid (pm : ProgramMap) (pid : Nat) (hes : ESPid pid pm) (hpmt : pid ≠ 4096)
+    (m : Mux) (ops : List Op) (hinv : MuxInv m) (hok : RunAll (HistOK pid) m ops)
+    (s : List Packet) (hs : ParsesTo (run m ops).1 s) :
+    deliveredOn pm pid s =
+      (writesOn pid m ops).map fun w => .ok [pesDelivered pid w.hdr w.data w.unit.first] :=
+  history_delivered pm pid hes hpmt m ops hinv hok s hs
+
+/-- the packets of one successful, well-formed `WriteData`, as the demuxer sees them: one unit -/
+theorem call_unit (m : Mux) (d : MuxerData) (hinv : MuxInv m) (hs : Succeeded m d) (hg : GoodData m d) :
+    (unitOfCall m d).packets = (payloadOnly (callPkts m d)).map normalise ∧ UnitOK (unitOfCall m d) ∧
+    (unitOfCall m d).first.header.continuityCounter = next (stored m d.pid) ∧
+    stored (m.writeData d).2.1 d.pid = lastOf (unitOfCall m d) ∧
+    C02.unitOnPID d.pid (unitOfCall m d) ∧
+    concatPayload (unitOfCall m d).packets = pesHeaderBytes (dataHdr m d) d.pes.data.length ++ d.pes.data :=
+  MuxDemux.call_unit m d hinv hs hg
+
+/-! ### non-vacuity: a history with three `WriteData` calls on PID 256 (adaptation field with PCR that fits; no
+adaptation field, short payload; adaptation field too large for the PES header to fit behind it), tables in between -/
+
+def exStream : PMTElementaryStream := { elementaryPID := 256, streamType := 0x0f }
+
+def exAF : PacketAdaptationField :=
+  { hasPCR := true, pcr := some { base := 123456, extension := 7 }, randomAccessIndicator := true }
+
+/-- 175 bytes of private data: 177 bytes behind the length byte, 6 bytes left — the 14-byte PES header does not fit -/
+def exAF3 : PacketAdaptationField :=
+  { hasTransportPrivateData := true, transportPrivateData := List.replicate 175 0x11, transportPrivateDataLength := 175 }
+
+/-- 300 payload bytes behind an adaptation field with a PCR: two packets; stream id defaulted to 0xc0 -/
+def exD1 : MuxerData :=
+  { pid := 256, adaptationField := some exAF,
+    pes := { data := List.replicate 300 0xab, header := { optionalHeader := some C12.exAudioOpt } } }
+
+/-- 10 payload bytes, no adaptation field: one stuffed packet -/
+def exD2 : MuxerData :=
+  { pid := 256, pes := { data := List.replicate 10 0xcd, header := { optionalHeader := some C12.exAudioOpt, streamID := 0xc0 } } }
+
+/-- 200 payload bytes, the large adaptation field: an adaptation-field-only packet and two payload packets -/
+def exD3 : MuxerData :=
+  { pid := 256, adaptationField := some exAF3,
+    pes := { data := List.replicate 200 0xef, header := { optionalHeader := some C12.exAudioOpt, streamID := 0xc0 } } }
+
+def exOps : List Op := [.add exStream, .setPCR 256, .data exD1, .tables, .data exD2, .data exD3]
+
+def exM0 : Mux := newMux 40
+def exM2 : Mux := (run exM0 [.add exStream, .setPCR 256]).2
+def exM3 : Mux := (step exM2 (.data exD1)).2
+def exM4 : Mux := (step exM3 .tables).2
+def exM5 : Mux := (step exM4 (.data exD2)).2
+
+def exHdr : PESHeader := { optionalHeader := some C12.exAudioOpt, streamID := 0xc0 }
+
+theorem exHdr_ok : PESHeaderOk exHdr := by
+  refine ⟨by decide, ?_⟩
+  rw [if_pos (by decide)]
+  exact ⟨C12.exAudioOpt, rfl, C12.exAudioOpt_ok⟩
+
+theorem exAF_caller : CallerAF exAF :=
+  ⟨rfl, ⟨fun _ => by decide, fun h => absurd h (by decide), fun h => absurd h (by decide), fun h => absurd h (by decide),
+    fun h => absurd h (by decide)⟩, rfl, rfl⟩
+
+theorem exAF3_caller : CallerAF exAF3 :=
+  ⟨rfl, ⟨fun h => absurd h (by decide), fun h => absurd h (by decide), fun h => absurd h (by decide),
+    fun _ => ⟨by decide +kernel, by decide +kernel⟩, fun h => absurd h (by decide)⟩, rfl, rfl⟩
+
+theorem ex_hdr1 : dataHdr exM2 exD1 = exHdr := by decide +kernel
+theorem ex_hdr2 : dataHdr exM4 exD2 = exHdr := by decide +kernel
+theorem ex_hdr3 : dataHdr exM5 exD3 = exHdr := by decide +kernel
+
+theorem exGood1 : GoodData exM2 exD1 :=
+  ⟨by rw [ex_hdr1]; exact exHdr_ok, fun a h => (by cases h; exact exAF_caller), by decide +kernel⟩
+theorem exGood2 : GoodData exM4 exD2 :=
+  ⟨by rw [ex_hdr2]; exact exHdr_ok, fun a h => (by cases h), by decide +kernel⟩
+theorem exGood3 : GoodData exM5 exD3 :=
+  ⟨by rw [ex_hdr3]; exact exHdr_ok, fun a h => (by cases h; exact exAF3_caller), by decide +kernel⟩
+
+/-- the hypotheses of `mux_demux_pid` hold for the example history -/
+theorem exHist : RunAll (HistOK 256) exM0 exOps := by
+  refine ⟨⟨⟨by decide, by decide, by decide⟩, fun d h => (by cases h)⟩, ⟨trivial, fun d h => (by cases h)⟩, ⟨trivial, ?_⟩,
+    ⟨trivial, fun d h => (by cases h)⟩, ⟨trivial, ?_⟩, ⟨trivial, ?_⟩, trivial⟩
+  · intro d h
+    cases h
+    exact ⟨by unfold Succeeded; decide +kernel, fun _ => exGood1⟩
+  · intro d h
+    cases h
+    exact ⟨by unfold Succeeded; decide +kernel, fun _ => exGood2⟩
+  · intro d h
+    cases h
+    exact ⟨by unfold Succeeded; decide +kernel, fun _ => exGood3⟩
+
+theorem exESPid : ESPid 256 [(4096, 1)] := ⟨by decide +kernel, by decide +kernel⟩
+
+/-- executable form of `ParsesTo` -/
+def parseAll : List Bytes → Option (List Packet)
+  | [] => some []
+  | c :: cs =>
+    match (parsePacket none).val c, parseAll cs with
+    | .ok p, some ps => some (p :: ps)
+    | _, _ => none
+
+theorem parsesTo_of_parseAll {cs : List Bytes} {s : List Packet} (h : parseAll cs = some s) : ParsesTo cs s := by
+  induction cs generalizing s with
+  | nil => simp only [parseAll, Option.some.injEq] at h; subst h; trivial
+  | cons c cs ih =>
+    unfold parseAll at h
+    split at h
+    · rename_i p ps h1 h2
+      simp only [Option.some.injEq] at h; subst h
+      exact ⟨h1, ih h2⟩
+    · cases h
+
+/-- the demuxer's packet sequence exists for the example history: 2 table packets (first `WriteData`), 2 PES packets,
+2 table packets (`WriteTables`), 1 PES packet, 1 adaptation-field-only packet and 2 PES packets -/
+theorem exStream_exists : ∃ s, ParsesTo (run exM0 exOps).1 s ∧ s.length = 10 := by
+  have h : ((parseAll (run exM0 exOps).1).map List.length) = some 10 := by decide +kernel
+  revert h
+  generalize (run exM0 exOps).1 = cs
+  intro h
+  cases hp : parseAll cs with
+  | none => rw [hp] at h; cases h
+  | some s =>
+    rw [hp] at h
+    simp only [Option.map_some, Option.some.injEq] at h
+    exact ⟨s, parsesTo_of_parseAll hp, h⟩
+
+theorem ex_writes : writesOn 256 exM0 exOps = [writeOf exM2 exD1, writeOf exM4 exD2, writeOf exM5 exD3] := rfl
+
+set_option maxRecDepth 8000 in
+/-- the example history through `mux_demux_pid`: three PES, in order, each once, no error -/
+theorem ex_delivered (s : List Packet) (hs : ParsesTo (run exM0 exOps).1 s) :
+    deliveredOn [(4096, 1)] 256 s =
+      [.ok [pesDelivered 256 exHdr (List.replicate 300 0xab) (unitOfCall exM2 exD1).first],
+       .ok [pesDelivered 256 exHdr (List.replicate 10 0xcd) (unitOfCall exM4 exD2).first],
+       .ok [pesDelivered 256 exHdr (List.replicate 200 0xef) (unitOfCall exM5 exD3).first]] := by
+  have hne : (256 : Nat) ≠ 4096 := by decide +kernel
+  rw [mux_demux_pid [(4096, 1)] 256 exESPid hne exM0 exOps (muxInv_new 40) exHist s hs, ex_writes]
+  simp only [List.map_cons, List.map_nil, writeOf, ex_hdr1, ex_hdr2, ex_hdr3]
+  rfl
+
+/-- M1: the hypotheses of `loop_written`, `loop_chain`, `loop_good` hold for the loop run of the first example call
+(fresh counter, adaptation field with PCR, 300 payload bytes) -/
+example : (writeDataLoop 256 exHdr 302 (List.replicate 300 0xab) true true (some exAF) (newWrappingCounter 15) []).1.isOk = true
+    ∧ CCInv (newWrappingCounter 15) ∧ AFHyp true (some exAF) ∧ 256 < 8192 :=
+  ⟨by decide +kernel, ccInv_fresh, fun _ => ⟨exAF, rfl, exAF_caller⟩, by decide⟩
+
+/-- M2: the hypotheses of `written_parses` hold for the packet of C11's example (PCR, private data, extension, stuffing) -/
+example : Written [C11.exPkt] [C11.exBytes] ∧ ∀ p ∈ [C11.exPkt], PacketWF p ∧ C11.PacketFull p :=
+  ⟨⟨C11.exPkt_written, trivial⟩, fun p hp => by
+    simp only [List.mem_cons, List.not_mem_nil, or_false] at hp
+    subst hp
+    exact ⟨C11.exPkt_wf, C11.exPkt_full⟩⟩
+
+/-- M3: the hypotheses of `parseData_pes_unit` hold for the unit of the second example call -/
+example : ESPid (unitOfCall exM4 exD2).first.header.pid [(4096, 1)] ∧ PESHeaderOk exHdr ∧
+    concatPayload ((unitOfCall exM4 exD2).first :: (unitOfCall exM4 exD2).rest)
+      = pesHeaderBytes exHdr (List.replicate 10 0xcd).length ++ List.replicate 10 0xcd :=
+  ⟨⟨by decide +kernel, by decide +kernel⟩, exHdr_ok, by decide +kernel⟩
+
+/-- packets built: 2, 1, and 3 (the first of which is the adaptation-field-only packet) -/
+example : (callPkts exM2 exD1).length = 2 ∧ (callPkts exM4 exD2).length = 1 ∧
+    (callPkts exM5 exD3).map (·.header.hasPayload) = [false, true, true] := by decide +kernel
+
+/-- first delivered packet of the first PES: the caller's adaptation field (PCR), `length` recomputed; counter 0 -/
+example : { (unitOfCall exM2 exD1).first with payload := [] } =
+    { adaptationField := some { exAF with length := 7 },
+      header := { continuityCounter := 0, hasAdaptationField := true, hasPayload := true, payloadUnitStartIndicator := true,
+                  pid := 256, transportErrorIndicator := false, transportPriority := false, transportScramblingControl := 0 },
+      payload := [] } := by decide +kernel
+
+/-- second PES: stuffing-only adaptation field (158 stuffing bytes); counter 2 -/
+example : { (unitOfCall exM4 exD2).first with payload := [] } =
+    { adaptationField := some { length := 159, stuffingLength := 158 },
+      header := { continuityCounter := 2, hasAdaptationField := true, hasPayload := true, payloadUnitStartIndicator := true,
+                  pid := 256, transportErrorIndicator := false, transportPriority := false, transportScramblingControl := 0 },
+      payload := [] } := by decide +kernel
+
+/-- third PES: the caller's adaptation field went out alone; the delivered first packet has none; counter 3 -/
+example : { (unitOfCall exM5 exD3).first with payload := [] } =
+    { adaptationField := none,
+      header := { continuityCounter := 3, hasAdaptationField := false, hasPayload := true, payloadUnitStartIndicator := true,
+                  pid := 256, transportErrorIndicator := false, transportPriority := false, transportScramblingControl := 0 },
+      payload := [] } := by decide +kernel
+
+/-! ## Final step, labelled separately: sequences of `Demux.NextData` calls (proofs: `Astits/Proofs/MuxDemuxNext.lean`)
+
+The demuxer model itself — reader, packet buffer (`DemuxerOptPacketSize(188)`), packet loop, data buffer, program
+map updates, end-of-stream drain — instead of the pool-level functions `flushesOf` / `queueAfter`.
+
+* `demuxOf bytes` — a fresh demuxer on `bytes`; `collect n d` — the results of up to `n` calls of `NextData`, stopping
+  at `ErrNoMorePackets`, and whether that end was reached; `after k d` — the demuxer after `k` calls;
+* `pidOut pid rs` — the `DemuxerData` with PID `pid` among the results `rs` (errors carry no PID);
+* `accepted pid p` — `p` is on `pid`, has payload and no transport error; `groupsFrom pid q l` — the groups the
+  accumulator of `pid` flushes from queue `q` while the accepted packets `l` arrive, then its last queue. -/
+
+/-- **`NextData` sequences, any stream.**  For any byte stream made of whole 188-byte chunks that parse (`ParsesTo`),
+read by a fresh demuxer until `NextData` reports the end (`hend`), and any PID that the program map never turns into
+a PSI PID during these calls (`hsafe`): the data returned for that PID are exactly the `parseData` results of the
+groups its accumulator hands over — in order, each once; the data buffer, the other PIDs' units (whatever they are:
+tables, other streams, parse errors) and the drain order do not interfere. -/
+theorem nextData_delivers (pid : Nat) (cs : List Bytes) (s : List Packet) (hs : ParsesTo cs s)
+    (hlen : ∀ c ∈ cs, c.length = 188)
+    (n : Nat) (hsafe : ∀ k, k < n → ESPid pid (after k (demuxOf cs.flatten)).programMap)
+    (hend : (collect n (demuxOf cs.flatten)).2 = true) :
+    pidOut pid (collect n (demuxOf cs.flatten)).1 =
+      okAll ((groupsFrom pid [] (s.filter (accepted pid))).map (parseData · .none [])) :=
+  MuxDemux.nextData_delivers pid cs s hs hlen n hsafe hend
+
+/-- **the call sequence terminates**: on a stream of whole, parseable 188-byte chunks, finitely many calls of
+`NextData` reach `ErrNoMorePackets` (each call consumes a packet, empties a pool entry or pops the data buffer) -/
+theorem nextData_terminates (cs : List Bytes) (s : List Packet) (hs : ParsesTo cs s) (hlen : ∀ c ∈ cs, c.length = 188) :
+    ∃ n, (collect n (demuxOf cs.flatten)).2 = true :=
+  MuxDemux.nextData_terminates cs s hs hlen
+
+/-- **C01 on the model through `Demux.NextData` (partial).**  The history hypotheses of `mux_demux_pid`; the bytes
+the muxer produced are read by a fresh demuxer with `n` calls of `NextData`, the last of which reported the end of the
+stream (`hend`; such an `n` exists: `nextData_terminates`, and see `mux_demux_nextData_all_partial`).  Then the
+`DemuxerData` returned for `pid` are exactly the PES written on `pid`, in call order, each once, each with payload,
+header, first packet and PID as in `mux_demux_pid`.
+
+`_partial`: one hypothesis about the run is *assumed* rather than derived from the muxer side —
+`hsafe`: during these calls the demuxer's program map never turns `pid` into a PSI PID (it is `[]`, then
+`[(0x1000, 1)]` once the muxer's PAT has been parsed).  Deriving this needs the PAT/PMT section round trips (C13) with
+the 0xff padding of the table packets, taken through the accumulator's early-flush path, plus the side conditions
+under which the written PMT is well-formed (descriptor lengths) and no elementary PID in the DVB SI range
+0x10–0x14, 0x1e, 0x1f (whose PES units the demuxer would parse as PSI) — not done here.  The hypothesis is decidable
+and is discharged by evaluation for the example history below. -/
+theorem mux_demux_nextData_partial (pid : Nat) (hpmt : pid ≠ 4096) (m : Mux) (ops : List Op) (hinv : MuxInv m)
+    (hok : RunAll (HistOK pid) m ops) (s : List Packet) (hs : ParsesTo (run m ops).1 s)
+    (n : Nat) (hsafe : ∀ k, k < n → ESPid pid (after k (demuxOf (run m ops).1.flatten)).programMap)
+    (hend : (collect n (demuxOf (run m ops).1.flatten)).2 = true) :
+    pidOut pid (collect n (demuxOf (run m ops).1.flatten)).1 =
+      (writesOn pid m ops).map fun w => pesDelivered pid w.hdr w.data w.unit.first :=
+  history_nextData_partial pid hpmt m ops hinv hok s hs n hsafe hend
+
+/-- the same with termination made explicit: some number of calls reaches the end of the stream, and from then on the
+data collected for `pid` are exactly the PES written (`hsafe` as above, for all calls) -/
+theorem mux_demux_nextData_all_partial (pid : Nat) (hpmt : pid ≠ 4096) (m : Mux) (ops : List Op) (hinv : MuxInv m)
+    (hok : RunAll (HistOK pid) m ops) (s : List Packet) (hs : ParsesTo (run m ops).1 s)
+    (hsafe : ∀ k, ESPid pid (after k (demuxOf (run m ops).1.flatten)).programMap) :
+    ∃ n, (collect n (demuxOf (run m ops).1.flatten)).2 = true ∧
+      ∀ k, pidOut pid (collect (n + k) (demuxOf (run m ops).1.flatten)).1 =
+        (writesOn pid m ops).map fun w => pesDelivered pid w.hdr w.data w.unit.first :=
+  history_nextData_all_partial pid hpmt m ops hinv hok s hs hsafe
+
+/-! ### non-vacuity: the example history through `NextData` — 8 calls: PAT, PMT, PES 1, PAT, PMT, PES 2, PES 3, end -/
+
+theorem ex_end : (collect 8 (demuxOf (run exM0 exOps).1.flatten)).2 = true := by decide +kernel
+
+theorem ex_safe : ∀ k, k < 8 → ESPid 256 (after k (demuxOf (run exM0 exOps).1.flatten)).programMap := by
+  decide +kernel
+
+example : (collect 8 (demuxOf (run exM0 exOps).1.flatten)).1.length = 7 := by decide +kernel
+
+set_option maxRecDepth 8000 in
+/-- the seven results of the eight calls contain, on PID 256, exactly the three PES written -/
+theorem ex_nextData (s : List Packet) (hs : ParsesTo (run exM0 exOps).1 s) :
+    pidOut 256 (collect 8 (demuxOf (run exM0 exOps).1.flatten)).1 =
+      [pesDelivered 256 exHdr (List.replicate 300 0xab) (unitOfCall exM2 exD1).first,
+       pesDelivered 256 exHdr (List.replicate 10 0xcd) (unitOfCall exM4 exD2).first,
+       pesDelivered 256 exHdr (List.replicate 200 0xef) (unitOfCall exM5 exD3).first] := by
+  have hne : (256 : Nat) ≠ 4096 := by decide +kernel
+  rw [mux_demux_nextData_partial 256 hne exM0 exOps (muxInv_new 40) exHist s hs 8 ex_safe ex_end, ex_writes]
+  simp only [List.map_cons, List.map_nil, writeOf, ex_hdr1, ex_hdr2, ex_hdr3]
+  rfl
 
 end Astits.C01
